@@ -15,6 +15,36 @@ def cpf_expected(pv, T, comp, prec, Tp, pp, P1, P2, model):
                             first_component_permeance=P1, second_component_permeance=P2, calculation_type=model))
 
 
+def curve_built_under_the_flux_conditions(cx, prefix="ideal-curve", models=('NRTL', 'UNIQUAC')):
+    """Pervaporation.ideal_diffusion_curve composes the flux solver with the DiffusionCurve inversion: the curve object must be
+    constructed with the very permeate condition, feed temperature and mixture the fluxes were computed under - otherwise the
+    curve inverts the fluxes for a different question (C08) and does not report the membrane's permeances back (C09)."""
+    src = cx.src
+    Tt, PREC = C2.Tt, C2.PREC
+    ctr = {'Pervaporation.calculate_partial_fluxes': CF.cpf_contract, '__class_invariants__': CP.CLASS_INVARIANTS, 'DiffusionCurve.__init__': CP.diffusion_curve_ctor}
+    name = 'Pervaporation.ideal_diffusion_curve'; cx.under_contract(name)
+    def same(a, b):
+        if b is None: return blit(a is None)
+        if a is None: return FALSE
+        return blit(True) if a is b else eq(a, b)
+    for model in models:
+        for mode in C2.MODES:
+            Tp, pp = C2.mode_args(mode)
+            mix = W.mixture(src); pv = C2.pv_obj(src, mix, experiments=Opaque('experiments'))
+            comps = Seq(var('ncomp', 'I'), lambda i: Obj('Composition', dict(p=app('xs', lift(i)), type='weight'), owner='external'), owner='external', tag=('xs',))
+            ps = cx.explore(call(src, name, [], dict(feed_temperature=Tt, compositions=comps, permeate_temperature=Tp, permeate_pressure=pp, precision=PREC, calculation_type=model), self_obj=pv),
+                            contracts=ctr, pre=C2.BASE + [PREC > 0, var('ncomp', 'I') >= 1])
+            rs = returns(ps)
+            tag = "%s.%s.%s" % (prefix, model, mode)
+            cx.ob(tag + ".conditions.paths", [], blit(len(rs) >= 1), kind='paths', function=name)
+            for i, r in enumerate(rs):
+                c = r.value
+                if not (isinstance(c, Obj) and c.cls == 'DiffusionCurve'): raise Unsupported("ideal_diffusion_curve does not return a DiffusionCurve")
+                cx.ob("%s.%d.curve-built-under-the-flux-conditions" % (tag, i), r.pc,
+                      band(same(c.f['permeate_temperature'], Tp), same(c.f['permeate_pressure'], pp), same(c.f['feed_temperature'], Tt), blit(c.f['mixture'] is pv.f['mixture'])), function=name,
+                      statement="the returned curve carries the permeate temperature / pressure, feed temperature and mixture that the fluxes were computed with (so its inversion undoes that flux calculation)")
+
+
 def obligations(cx):
     src = cx.src
     Tt, Xf, TP, PP, PREC = C2.Tt, C2.Xf, C2.TP, C2.PP, C2.PREC
@@ -73,6 +103,7 @@ def obligations(cx):
                         okj = isinstance(Jj, tuple) and len(Jj) == 2
                         cx.ob("ideal-curve.%s.%d.point.%d" % (tag, i, qi), q.pc, band(eq(Jj[0], want[0]), eq(Jj[1], want[1]), eq(lift(npf), var('ncomp', 'I'))) if okj else FALSE, function=name,
                               statement="every point of an ideal diffusion curve is the standalone flux calculation at that composition with the selected model")
+    curve_built_under_the_flux_conditions(cx)
     # ------------------------------------------------------------------ process models: every step is a standalone calculation at the reported state
     cfgs = procs.configs(comp_types=('weight',)) + [procs.Config(f, 'temperature', False, 'molar', 'one', False, model='UNIQUAC') for f in procs.FUNCS]
     if cx.tier == 'quick': cfgs = [c for c in cfgs if c.ideal or not (c.curves == 'many' and c.initial)]
